@@ -1769,8 +1769,19 @@ size_t ZSTD_estimateCCtxSize_usingCCtxParams(const ZSTD_CCtx_params* params)
     /* estimateCCtxSize is for one-shot compression. So no buffers should
      * be needed. However, we still allocate two 0-sized buffers, which can
      * take space under ASAN. */
-    return ZSTD_estimateCCtxSize_usingCCtxParams_internal(
-        &cParams, &params->ldmParams, 1, useRowMatchFinder, 0, 0, ZSTD_CONTENTSIZE_UNKNOWN, ZSTD_hasExtSeqProd(params), params->maxBlockSize);
+    {   size_t const size = ZSTD_estimateCCtxSize_usingCCtxParams_internal(
+            &cParams, &params->ldmParams, 1, useRowMatchFinder, 0, 0, ZSTD_CONTENTSIZE_UNKNOWN, ZSTD_hasExtSeqProd(params), params->maxBlockSize);
+        if (params->useRowMatchFinder == ZSTD_ps_auto && ZSTD_rowMatchFinderSupported(cParams.strategy) && !ZSTD_isError(size)) {
+            /* The mode left to "auto" is resolved from the window log, which a small source reduces :
+             * budget for whichever of the two table layouts is larger, as ZSTD_estimateCCtxSize_usingCParams() does. */
+            size_t const otherSize = ZSTD_estimateCCtxSize_usingCCtxParams_internal(
+                &cParams, &params->ldmParams, 1,
+                (useRowMatchFinder == ZSTD_ps_enable) ? ZSTD_ps_disable : ZSTD_ps_enable,
+                0, 0, ZSTD_CONTENTSIZE_UNKNOWN, ZSTD_hasExtSeqProd(params), params->maxBlockSize);
+            if (!ZSTD_isError(otherSize)) return MAX(size, otherSize);
+        }
+        return size;
+    }
 }
 
 size_t ZSTD_estimateCCtxSize_usingCParams(ZSTD_compressionParameters cParams)
